@@ -441,3 +441,140 @@ Proof.
               injection H0 as <- <-. destruct Hx as [Hx|Hx]; [discriminate | exact (IH _ _ _ E1 _ _ Hx)]. }
         exact (G3 _ _ _ _ El o n (or_introl eq_refl) H).
 Qed.
+
+(* ------------------------------------------------------------------ *)
+(* Stepwise coverage (C14): every address covered by a route before and
+   after the change is covered after each command. *)
+
+Fixpoint kexec_prefix (k : nat) (t : list spec) (l : list rcmd) : option (list spec) :=
+  match k, l with
+  | O, _ => Some t
+  | S k', c :: r => match kexec t c with Some t' => kexec_prefix k' t' r | None => None end
+  | S _, [] => Some t
+  end.
+
+Section Coverage.
+Variable addr : Type.
+Variable covers : spec -> addr -> bool.
+Hypothesis covers_dst : forall s s' x, dst_eqb s s' = true -> covers s x = covers s' x.
+
+Definition covered (t : list spec) (x : addr) : Prop := exists s, In s t /\ covers s x = true.
+
+Lemma last_with_dst_dst a s r : last_with_dst a s = Some r -> dst_eqb (r_spec r) s = true.
+Proof.
+  induction a as [|y a IH]; simpl; [discriminate|].
+  destruct (last_with_dst a s) as [z|] eqn:E.
+  - intros H. injection H as <-. apply IH. reflexivity.
+  - destruct (dst_eqb (r_spec y) s) eqn:Ed; [|discriminate]. intros H. injection H as <-. exact Ed.
+Qed.
+
+(* commands of the loop: adds, and replacements of a route by one to the same destination *)
+Definition loop_cmd (c : rcmd) : Prop :=
+  match c with
+  | RAdd _ => True
+  | RRepl o n => dst_eqb (r_spec o) (r_spec n) = true
+  | RDel _ => False
+  end.
+
+Lemma loop_b_cmds a : forall bs amap c, In c (fst (loop_b a bs amap)) -> loop_cmd c.
+Proof.
+  induction bs as [|r bs IH]; intros amap c Hc; simpl in Hc; [destruct Hc|].
+  destruct (mem_spec (r_spec r) amap); [apply (IH _ _ Hc)|].
+  destruct (last_with_dst a (r_spec r)) as [r2|] eqn:El.
+  - destruct (mem_spec (r_spec r2) amap).
+    + destruct (loop_b a bs (remove_spec (r_spec r2) amap)) as [c1 m1] eqn:E1. simpl in Hc.
+      destruct Hc as [<-|Hc]; [simpl; apply (last_with_dst_dst _ _ _ El)|].
+      apply (IH (remove_spec (r_spec r2) amap)). rewrite E1. exact Hc.
+    + destruct (loop_b a bs amap) as [c1 m1] eqn:E1. simpl in Hc.
+      destruct Hc as [<-|Hc]; [exact I|]. apply (IH amap). rewrite E1. exact Hc.
+  - destruct (loop_b a bs amap) as [c1 m1] eqn:E1. simpl in Hc.
+    destruct Hc as [<-|Hc]; [exact I|]. apply (IH amap). rewrite E1. exact Hc.
+Qed.
+
+Lemma loop_cmd_keeps_cover t c t' x :
+  loop_cmd c -> kexec t c = Some t' -> covered t x -> covered t' x.
+Proof.
+  destruct c as [r|r|o n]; simpl; intros L H [s [Hs Hc]]; [|contradiction|].
+  - unfold kadd in H. destruct (mem_spec (r_spec r) t); [discriminate|]. injection H as <-.
+    exists s. split; [apply in_or_app; left; exact Hs | exact Hc].
+  - unfold kdel in H. destruct (mem_spec (r_spec o) t); [|discriminate].
+    unfold kadd in H. destruct (mem_spec (r_spec n) (remove_spec (r_spec o) t)); [discriminate|].
+    injection H as <-.
+    destruct (spec_eqb s (r_spec o)) eqn:E.
+    + apply spec_eqb_eq in E. subst s. exists (r_spec n). split; [apply in_or_app; right; left; reflexivity|].
+      rewrite <- (covers_dst _ _ x L). exact Hc.
+    + exists s. split; [|exact Hc]. apply in_or_app. left. apply In_remove_spec. split; [exact Hs|].
+      intro X. subst. rewrite spec_eqb_refl in E. discriminate.
+Qed.
+
+Lemma loop_prefix_keeps_cover : forall cs k t t' x,
+  (forall c, In c cs -> loop_cmd c) -> kexec_prefix k t cs = Some t' -> covered t x -> covered t' x.
+Proof.
+  induction cs as [|c cs IH]; intros k t t' x L H Hc.
+  - destruct k; simpl in H; injection H as <-; exact Hc.
+  - destruct k; simpl in H; [injection H as <-; exact Hc|].
+    destruct (kexec t c) as [t1|] eqn:E; [|discriminate].
+    apply (IH k t1 t' x); [intros c0 H0; apply L; right; exact H0 | exact H|].
+    apply (loop_cmd_keeps_cover t c t1 x); [apply L; left; reflexivity | exact E | exact Hc].
+Qed.
+
+Lemma kexec_prefix_app : forall c1 c2 k t,
+  kexec_prefix k t (c1 ++ c2) =
+  if Nat.leb k (List.length c1) then kexec_prefix k t c1
+  else match kexec_all t c1 with
+       | Some t1 => kexec_prefix (k - List.length c1) t1 c2
+       | None => None
+       end.
+Proof.
+  induction c1 as [|c c1 IH]; intros c2 k t.
+  - destruct k; [destruct c2; reflexivity|]. cbn [app List.length Nat.leb kexec_all]. rewrite Nat.sub_0_r. reflexivity.
+  - destruct k; [reflexivity|]. cbn [app List.length Nat.leb kexec_all kexec_prefix Nat.sub].
+    destruct (kexec t c) as [t1|]; [|destruct (Nat.leb k (List.length c1)); reflexivity].
+    apply IH.
+Qed.
+
+(* during the delete phase nothing of the target is removed *)
+Lemma dels_prefix_keeps : forall l k t t' (keep : list spec),
+  (forall s, In s (specs l) -> ~ In s keep) ->
+  kexec_prefix k t (map RDel l) = Some t' ->
+  (forall s, In s keep -> In s t) -> forall s, In s keep -> In s t'.
+Proof.
+  induction l as [|r l IH]; intros k t t' keep D H Hk s Hs.
+  - destruct k; simpl in H; injection H as <-; apply Hk; exact Hs.
+  - destruct k; simpl in H; [injection H as <-; apply Hk; exact Hs|].
+    unfold kdel in H. destruct (mem_spec (r_spec r) t); [|discriminate].
+    apply (IH k (remove_spec (r_spec r) t) t' keep); auto.
+    + intros s0 H0. apply D. right. exact H0.
+    + intros s0 H0. apply In_remove_spec. split; [apply Hk; exact H0|].
+      intro X. subst. apply (D (r_spec r)); [left; reflexivity | exact H0].
+Qed.
+
+Theorem routes_covered_stepwise_proved a b :
+  NoDup (specs a) -> NoDup (specs b) ->
+  forall k t x, kexec_prefix k (specs a) (diff_routes a b) = Some t ->
+    covered (specs a) x -> covered (specs b) x -> covered t x.
+Proof.
+  intros Ha Hb k t x Hk Ca Cb.
+  unfold diff_routes, diff_routes_sorted in Hk.
+  pose proof (sort_routes_perm b) as P.
+  assert (Hb' : NoDup (specs (sort_routes b))).
+  { apply (Permutation_NoDup (Permutation_sym (Permutation_map r_spec P))). exact Hb. }
+  destruct (loop_b_spec a (sort_routes b) (specs a) (specs a) []) as (t1 & E & N1 & N2 & S1 & S2 & S3); auto.
+  { intros s; simpl; tauto. }
+  fold (specs a) in Hk.
+  destruct (loop_b a (sort_routes b) (specs a)) as [c m] eqn:El. cbn [fst snd] in *.
+  rewrite kexec_prefix_app in Hk.
+  destruct (Nat.leb k (List.length c)) eqn:Ek.
+  - apply (loop_prefix_keeps_cover c k (specs a) t x); auto.
+    intros c0 H0. apply (loop_b_cmds a (sort_routes b) (specs a)). rewrite El. exact H0.
+  - rewrite E in Hk.
+    destruct Cb as [s [Hs Hc]]. exists s. split; [|exact Hc].
+    assert (Hs' : In s (specs (sort_routes b)))
+      by (eapply Permutation_in; [apply Permutation_sym; apply Permutation_map; exact P | exact Hs]).
+    apply (dels_prefix_keeps _ _ _ _ (specs (sort_routes b)) ) with (s := s) in Hk; auto.
+    + intros s0 H0 H1. unfold specs in H0. rewrite in_map_iff in H0. destruct H0 as [r [<- Hr]].
+      apply filter_In in Hr. destruct Hr as [_ Hm]. apply mem_spec_In in Hm.
+      destruct (S3 _ Hm) as [_ B]. exact (B H1).
+    + intros s0 H0. apply S2. right. right. exact H0.
+Qed.
+End Coverage.
